@@ -247,6 +247,7 @@ func checkC04(c *Ctx) {
 	ruleP3(c)
 	ruleT1(c)
 	ruleT1c(c)
+	ruleT4(c, pipePkgs, 5)
 	ruleX5b(c)
 	// the pipes are closed by wg.Operation().PostHook(close): a WaitGroup.Wait that can miss the last Done
 	// leaves the output open for ever
@@ -274,6 +275,7 @@ func checkC05(c *Ctx) {
 	ruleQueueLinks(c)
 	ruleTracker2(c)
 	ruleN5(c)
+	ruleCtorWiring(c)
 }
 
 func checkC06(c *Ctx) {
@@ -294,6 +296,7 @@ func checkC06(c *Ctx) {
 	ruleX7(c)
 	ruleX10(c, "pubsub", "Deque", 8)
 	ruleTracker2(c)
+	ruleCtorWiring(c)
 }
 
 func checkC07(c *Ctx) {
